@@ -356,6 +356,10 @@ class Registry:
         for (name, fn, props) in c.ens:
             cur.assume(fn(r, post))
         rv: Any = T(r, c.ret_hint)
+        if getattr(c, "fresh_result", False):
+            if not hasattr(ex, "fresh_terms"):
+                ex.fresh_terms = set()
+            ex.fresh_terms.add(r.get_id())
         if getattr(c, "returns_arg", None):
             rv = env[c.returns_arg]
         outs.append((cur, rv))
